@@ -14,6 +14,43 @@ use serde_json::{json, Value};
 use std::cell::Cell;
 use std::collections::BTreeMap;
 
+/// The engine logs a DEBUG event "start depth" with a `depth` field at the start of every deepening
+/// pass.  With a subscriber installed this is a second, independent observation of "the first pass
+/// finished": once the pass for depth >= 1 has started, pass 0 is over.  If the log statement ever
+/// disappears this observation is simply absent (no verdict depends on its presence).
+pub static PASS_WATCH_ON: std::sync::atomic::AtomicBool = std::sync::atomic::AtomicBool::new(false);
+thread_local! {
+    pub static DEEPEST_PASS_STARTED: Cell<Option<u64>> = const { Cell::new(None) };
+}
+pub struct PassWatcher;
+impl<S: tracing::Subscriber> tracing_subscriber::Layer<S> for PassWatcher {
+    fn on_event(&self, event: &tracing::Event<'_>, _ctx: tracing_subscriber::layer::Context<'_, S>) {
+        struct V {
+            depth: Option<u64>,
+            is_start: bool,
+        }
+        impl tracing::field::Visit for V {
+            fn record_u64(&mut self, field: &tracing::field::Field, value: u64) {
+                if field.name() == "depth" {
+                    self.depth = Some(value);
+                }
+            }
+            fn record_debug(&mut self, field: &tracing::field::Field, value: &dyn std::fmt::Debug) {
+                if field.name() == "message" && format!("{value:?}").contains("start depth") {
+                    self.is_start = true;
+                }
+            }
+        }
+        let mut v = V { depth: None, is_start: false };
+        event.record(&mut v);
+        if v.is_start {
+            if let Some(d) = v.depth {
+                DEEPEST_PASS_STARTED.with(|c| c.set(Some(c.get().map_or(d, |x| x.max(d)))));
+            }
+        }
+    }
+}
+
 /// polls 0..k-1 answer "not yet", every later poll answers "expired" (monotone, like a deadline)
 pub struct CountingTimeout {
     pub k: u64,
@@ -46,6 +83,7 @@ pub struct Outcome {
 }
 
 pub fn search_k(board: &Board, k: u64, positional: bool) -> Result<Outcome, String> {
+    DEEPEST_PASS_STARTED.with(|c| c.set(None));
     set_case(|| json!({"property": "C11", "case": {"kind": "search", "fen": board.to_string(), "k": k, "positional": positional}}).to_string());
     let r = std::panic::catch_unwind(|| {
         let mut engine = Engine::default();
@@ -86,7 +124,13 @@ pub fn c11_case(rp: &Position, board: &Board, legal: &[Mv], k: u64, positional: 
                     }
                 }
                 None => {
-                    if o.polls <= k && !legal.is_empty() {
+                    let next_pass_started = PASS_WATCH_ON.load(std::sync::atomic::Ordering::Relaxed) && DEEPEST_PASS_STARTED.with(|c| c.get()).map_or(false, |d| d >= 1);
+                    if next_pass_started && !legal.is_empty() {
+                        d.push(Divergence::new(
+                            "search-returns-no-move-although-a-later-pass-had-started",
+                            format!("{fen} expiry at poll {k}: the engine logged the start of the pass for depth {:?} (so the first pass was over), {} legal moves, returned None", DEEPEST_PASS_STARTED.with(|c| c.get()), legal.len()),
+                        ));
+                    } else if o.polls <= k && !legal.is_empty() {
                         // the limit never reported expiry, so nothing can have cut the first pass short
                         d.push(Divergence::new(
                             "search-gives-up-without-a-move-before-the-limit-expired",
@@ -201,6 +245,28 @@ pub fn search_positions(tier: Tier) -> Vec<Position> {
             v.push(p);
         }
     }
+    // one ply before the end of a lost game: every legal move allows a mate in one
+    {
+        let mut lost = vec![];
+        for p in kxk_family(refchess::Pc::Q, false) {
+            if p.turn == Col::B {
+                let l = p.legal_moves();
+                if !l.is_empty() && l.iter().all(|m| !p.make(*m).mating_moves().is_empty()) {
+                    lost.push(p);
+                }
+            }
+        }
+        let stride = (lost.len() / tier.pick(120, 1200)).max(1);
+        for p in lost.into_iter().step_by(stride) {
+            v.push(p.mirror());
+            v.push(p);
+        }
+        for f in ["6q1/8/8/8/8/8/2k4P/K7 w - - 0 1", "6k1/8/4b3/q7/8/3B4/PPn5/KR1Q4 w - - 0 1", "7r/2k3P1/8/1p6/P7/8/8/6K1 w - - 0 1"] {
+            let p = Position::from_fen(f).unwrap();
+            v.push(p.mirror());
+            v.push(p);
+        }
+    }
     // degenerate roots
     for f in ["7k/5Q2/6K1/8/8/8/8/8 b - - 0 1", "7k/6Q1/6K1/8/8/8/8/8 b - - 0 1", "4k3/8/8/8/8/8/8/4K2R w K - 99 60", "4k3/8/8/8/8/8/8/4K2R w K - 100 60", "k7/8/8/8/8/8/8/K7 w - - 0 1"] {
         let p = Position::from_fen(f).unwrap();
@@ -241,8 +307,22 @@ pub fn run_c11(args: &Args) -> i32 {
                 Sink
             }
         }
-        let _ = tracing_subscriber::fmt().with_max_level(tracing::Level::DEBUG).with_writer(MkSink).try_init();
-        positions = positions.into_iter().step_by(6).collect();
+        use tracing_subscriber::layer::SubscriberExt;
+        let _ = tracing::subscriber::set_global_default(
+            tracing_subscriber::registry()
+                .with(tracing_subscriber::filter::LevelFilter::DEBUG)
+                .with(PassWatcher)
+                .with(tracing_subscriber::fmt::layer().with_writer(MkSink)),
+        );
+        PASS_WATCH_ON.store(true, std::sync::atomic::Ordering::Relaxed);
+        let keep: Vec<Position> = ["6q1/8/8/8/8/8/2k4P/K7 w - - 0 1", "6k1/8/4b3/q7/8/3B4/PPn5/KR1Q4 w - - 0 1", "7r/2k3P1/8/1p6/P7/8/8/6K1 w - - 0 1"]
+            .iter()
+            .flat_map(|f| {
+                let p = Position::from_fen(f).unwrap();
+                [p.mirror(), p]
+            })
+            .collect();
+        positions = positions.into_iter().step_by(6).chain(keep).collect();
         cap = 250;
     }
     // positions with at most two legal moves have trivially cheap passes: sweep them over six passes
@@ -450,7 +530,9 @@ pub fn c12_case(rp: &Position, positional: bool) -> (bool, bool, Vec<Divergence>
         Err(msg) => d.push(Divergence::new("search-panics", format!("{fen}: {msg}"))),
         Ok(None) => return (!mates.is_empty(), false, d),
         Ok(Some(o)) => {
-            let completed = o.max_depth != SENTINEL;
+            // `first_pass` only returns when a pass was committed or the search ended by itself (the
+            // limit never expired): either way the first pass is over
+            let completed = true;
             let got_mv = o.mv.map(ref_mv);
             if completed && !mates.is_empty() {
                 match got_mv {
@@ -779,9 +861,148 @@ fn knight_promotion_mate_family(stride: usize) -> Vec<Position> {
         .collect()
 }
 
+/// The mover is in check, has exactly ONE legal move, and that move mates: K+Q v K+Q/R with
+/// every placement, selected by the reference.
+#[allow(dead_code)]
+fn forced_single_move_mate_family(stride: usize) -> Vec<Position> {
+    use refchess::Pc;
+    let mut raw = vec![];
+    let mut i = 0usize;
+    for wk in 0..64u8 {
+        for bk in 0..64u8 {
+            let (df, dr) = ((wk % 8) as i8 - (bk % 8) as i8, (wk / 8) as i8 - (bk / 8) as i8);
+            if wk == bk || (df.abs() <= 1 && dr.abs() <= 1) {
+                continue;
+            }
+            for wq in 0..64u8 {
+                for bx in 0..64u8 {
+                    if [wk, bk].contains(&wq) || [wk, bk, wq].contains(&bx) {
+                        continue;
+                    }
+                    for (piece, mine) in [(Pc::Q, Pc::Q), (Pc::R, Pc::Q), (Pc::B, Pc::Q), (Pc::N, Pc::Q), (Pc::Q, Pc::R), (Pc::R, Pc::R), (Pc::B, Pc::R), (Pc::N, Pc::R), (Pc::P, Pc::Q), (Pc::P, Pc::R)] {
+                        i += 1;
+                        if i % stride != 0 {
+                            continue;
+                        }
+                        if piece == Pc::P && (bx < 8 || bx >= 56) {
+                            continue;
+                        }
+                        let mut p = Position::empty();
+                        p.turn = Col::W;
+                        p.full = 1;
+                        p.board[wk as usize] = Some((Col::W, Pc::K));
+                        p.board[bk as usize] = Some((Col::B, Pc::K));
+                        p.board[wq as usize] = Some((Col::W, mine));
+                        p.board[bx as usize] = Some((Col::B, piece));
+                        // cheap pre-filter: the white king must be attacked
+                        if p.attacked(wk, Col::B) {
+                            raw.push(p);
+                        }
+                    }
+                }
+            }
+        }
+    }
+    raw.into_par_iter()
+        .filter(|p| {
+            if p.valid_root().is_err() {
+                return false;
+            }
+            let l = p.legal_moves();
+            l.len() == 1 && p.mating_moves().len() == 1
+        })
+        .collect()
+}
+
+/// Double pawn pushes that give check where an en-passant capture is a defence (so the push is NOT
+/// mate although every other reply is impossible), and en-passant captures that mate: members of
+/// the en-passant families selected by the reference.
+fn en_passant_mate_edge_family(level: u8) -> Vec<Position> {
+    let mut out: Vec<Position> = vec![];
+    // (a) before the push: some double push gives check, the opponent's only legal replies are ep captures
+    let pre: Vec<Position> = family_positions(Family::EpPlayed, level)
+        .into_par_iter()
+        .flat_map_iter(|b| [b.clone(), b.mirror()])
+        .filter(|p| {
+            if p.valid_root().is_err() {
+                return false;
+            }
+            p.legal_moves().iter().any(|m| {
+                if p.at(m.from).map(|x| x.1) != Some(refchess::Pc::P) || (refchess::rank_of(m.from) - refchess::rank_of(m.to)).abs() != 2 {
+                    return false;
+                }
+                let c = p.make(*m);
+                if !c.in_check() {
+                    return false;
+                }
+                let replies = c.legal_moves();
+                !replies.is_empty() && replies.iter().all(|r| c.at(r.from).map(|x| x.1) == Some(refchess::Pc::P) && Some(r.to) == c.ep_square())
+            })
+        })
+        .collect();
+    out.extend(pre);
+    // (b) an en-passant capture is a mating move
+    for fam in [Family::EpCheck, Family::Ep] {
+        let m: Vec<Position> = family_positions(fam, level)
+            .into_par_iter()
+            .flat_map_iter(|b| [b.clone(), b.mirror()])
+            .filter(|p| p.valid_root().is_ok() && p.mating_moves().iter().any(|m| p.at(m.from).map(|x| x.1) == Some(refchess::Pc::P) && Some(m.to) == p.ep_square()))
+            .collect();
+        out.extend(m);
+    }
+    out
+}
+
+/// The mover is in check with exactly ONE legal move, and that move mates: black king boxed in by
+/// its own pawns on the back rank (three boxes), a white queen or rook anywhere, the white king on
+/// ranks 1-3, a black queen/rook/bishop/knight anywhere (the checker).  Selected by the reference.
+#[allow(dead_code)]
+fn boxed_king_forced_mate_family() -> Vec<Position> {
+    use refchess::Pc;
+    let boxes: [(u8, [u8; 3]); 3] = [(62, [53, 54, 55]), (57, [48, 49, 50]), (63, [54, 55, 46])];
+    let mut raw = vec![];
+    for (bk, pawns) in boxes {
+        for wk in 0..24u8 {
+            for w in 0..64u8 {
+                for mine in [Pc::Q, Pc::R] {
+                    for x in 0..64u8 {
+                        for checker in [Pc::Q, Pc::R, Pc::B, Pc::N] {
+                            let mut p = Position::empty();
+                            p.turn = Col::W;
+                            p.full = 1;
+                            let mut ok = true;
+                            let mut men = vec![(bk, Col::B, Pc::K), (wk, Col::W, Pc::K), (w, Col::W, mine), (x, Col::B, checker)];
+                            for q in pawns {
+                                men.push((q, Col::B, Pc::P));
+                            }
+                            for (s, c, pc) in men {
+                                if p.board[s as usize].is_some() {
+                                    ok = false;
+                                    break;
+                                }
+                                p.board[s as usize] = Some((c, pc));
+                            }
+                            if ok && p.attacked(wk, Col::B) {
+                                raw.push(p);
+                            }
+                        }
+                    }
+                }
+            }
+        }
+    }
+    raw.into_par_iter()
+        .filter(|p| p.valid_root().is_ok() && p.legal_moves().len() == 1 && p.mating_moves().len() == 1)
+        .collect()
+}
+
 pub fn c12_positions(tier: Tier) -> Vec<Position> {
     use refchess::Pc;
     let mut v = vec![];
+
+    // (two exhaustive searches for "in check, one legal move, and it mates" - K+Q/R v K+any piece, and a
+    // boxed black king with K+Q/R v K+3P+checker - found no member at all; see the hand-built list)
+    v.extend(en_passant_mate_edge_family(tier.pick(0, 1)));
     v.extend(knight_promotion_mate_family(tier.pick(4, 1)));
     v.extend(minor_capture_mate_family(tier.pick(5, 1)));
     v.extend(promotion_only_mate_family(tier.pick(3, 1)));
@@ -820,6 +1041,14 @@ pub fn c12_positions(tier: Tier) -> Vec<Position> {
         // capture-mate into a bishops-only ending; knight under-promotion as the only mate
         "kb6/8/1K6/3p4/8/1B6/8/8 w - - 0 1",
         "7b/5Ppk/7p/8/8/1B6/8/K7 w - - 0 1",
+        // a double push that gives check but is not mate because of en passant; an en-passant capture that mates
+        // the mover is in check, has exactly one legal move, and it mates (no exhaustive family of up to
+        // five men contains such a position; the first is constructed, the other two were found in play)
+        "Q3r1k1/5ppp/8/8/8/8/3P1P2/3RKR2 w - - 0 1",
+        "7r/Pp6/1n2P1P1/P1p2B2/2Pr4/2P2k1p/R4q2/2B2KR1 w - - 1 57",
+        "8/7p/8/1p4r1/1P4R1/2B1Pk2/1q2B3/2RNK3 b - - 1 56",
+        "2B5/8/2K5/k7/p7/2P5/1P6/8 w - - 0 1",
+        "3brb2/4kp2/8/1B1pPPP1/5B2/8/8/6K1 w - d6 0 1",
     ] {
         v.push(Position::from_fen(f).unwrap());
     }
@@ -842,6 +1071,8 @@ pub fn run_c12(args: &Args) -> i32 {
     if reduced() {
         positions = positions.into_iter().step_by(23).collect();
     }
+    let forced = positions.par_iter().filter(|p| p.legal_moves().len() == 1 && !p.mating_moves().is_empty()).count();
+    eprintln!("[C12] positions whose single legal move mates: {forced}");
     let mut with_mate = 0u64;
     let mut completed = 0u64;
     let mut runs = 0u64;
@@ -868,7 +1099,7 @@ pub fn run_c12(args: &Args) -> i32 {
         json!({
             "evaluations": runs,
             "distinct_nontrivial": with_mate,
-            "rule": "all KQ-K, KR-K and KP(7th rank)-K positions with either side to move, every 16th (thorough: every 2nd) K+Q v K + black N/R position and all K+P(7th) v K + capturable piece beside the promotion square positions (mates that compete with captures, which the engine iterates first under a mask), the capture-mates that leave only kings and minor pieces (black king in a corner region, blocker, white minor, victim; every 5th quick) the promotion-only mates (pawn on the 7th, two black men beside the black king; every 3rd quick) and the knight-under-promotion mates where the queen promotion to the same square does not mate (one white helper piece anywhere; every 4th quick) selected by the reference, every scenario root and 17 hand-built mates (several mating moves, under-promotion mate, en-passant mate, discovered mate, Black mating), each in both colours and with positional evaluation off and on; each is searched with the smallest k = 32*2^i that lets the first deepening pass complete. Non-trivial = (position, configuration) pairs that have a mate in one AND completed a pass; the rest exercise 'a mate-in-one score is reported only when the move mates'.",
+            "rule": "all KQ-K, KR-K and KP(7th rank)-K positions with either side to move, every 16th (thorough: every 2nd) K+Q v K + black N/R position and all K+P(7th) v K + capturable piece beside the promotion square positions (mates that compete with captures, which the engine iterates first under a mask), the capture-mates that leave only kings and minor pieces (black king in a corner region, blocker, white minor, victim; every 5th quick) the promotion-only mates (pawn on the 7th, two black men beside the black king; every 3rd quick) and the knight-under-promotion mates where the queen promotion to the same square does not mate (one white helper piece anywhere; every 4th quick) selected by the reference, the en-passant edge cases (a double push gives check and en passant is the only defence; an en-passant capture mates) selected from the en-passant families, every scenario root and 22 hand-built mates (three of them: in check with a single legal move that mates) (several mating moves, under-promotion mate, en-passant mate, discovered mate, Black mating), each in both colours and with positional evaluation off and on; each is searched with the smallest k = 32*2^i that lets the first deepening pass complete. Non-trivial = (position, configuration) pairs that have a mate in one AND completed a pass; the rest exercise 'a mate-in-one score is reported only when the move mates'.",
             "positions": positions.len(),
             "searches_that_completed_a_pass": completed,
             "exhaustive": true,
